@@ -213,7 +213,7 @@ def corr_objects(check, tier):
     from spyne.util.xml import get_object_as_xml
     from spyne.protocol.xml import XmlDocument
     rng = check.rng
-    n_univ = 8 if tier == 'quick' else 120
+    n_univ = 8 if tier == 'quick' else 60
     per_class = 4 if tier == 'quick' else 10
     prots = {False: XmlDocument(), True: XmlDocument(validator='soft')}
     for ui in range(n_univ):
